@@ -444,6 +444,13 @@ def totality_cases(ctx):
             add('filter', '(%s)[%s]' % (a, i))
     for e in G.dst_cases():
         add('dst', e)
+    cc = G.comment_cases()
+    for e in cc:
+        for m in (G.MODES if not ctx.quick else ['expr', rng.choice(G.MODES[1:])]):
+            add('comment', e, '', m)
+    for e in G.in_name_cases():
+        for m in (G.MODES if not ctx.quick else ['expr', rng.choice(G.MODES[1:])]):
+            add('in-name', e, '{x: 1}', m)
     dc = G.duration_cases()
     for e in (dc if not ctx.quick else rng.sample(dc, 700)):
         add('duration', e)
@@ -466,28 +473,38 @@ def totality_cases(ctx):
 
 def run_totality(ctx):
     cases = totality_cases(ctx)
-    reqs = [{'e': c['e'], 'ctx': c['ctx'], 'mode': c['mode']} for c in cases]
+    # mixed batches: when a change makes a whole class of inputs hang (10 s each), the first batch already holds 20 failing inputs and the run stops
+    ctx.rng.shuffle(cases)
     hist = {}
     kinds = {}
-    for rel in (False, True):
-        impl = ctx.run_impl(GUARD % LIMIT_MS, reqs, release=rel, shards=8)
-        if len(impl) != len(cases):
-            ctx.broken.append('totality run: %d answers for %d requests' % (len(impl), len(cases)))
-        for c, rq, ri in zip(cases, reqs, impl):
-            ctx.evaluations += 1
-            ri = settle(ctx, rq, ri, rel)
-            k = klass(ri)
-            tag = c['tag'].split('-')[0]
-            hist[tag] = hist.get(tag, 0) + 1
-            if k == 'ok':
-                ctx.corr_checked += 1
-                kk = 'value' if ri.get('v', 0) is not None and 'v' in ri else ('null' if 'v' in ri else 'error:' + str(ri.get('err', 'name')))
-                kinds[kk] = kinds.get(kk, 0) + 1
-                if 'v' in ri and ri['v'] is not None:
-                    ctx.nontrivial.add((c['e'], c['mode']))
-                continue
-            case = {'e': c['e'], 'ctx': c['ctx'], 'mode': c['mode'], 'build': 'release' if rel else 'debug', 'generator': c['tag']}
-            ctx.violation('%s in the %s build (%s, mode %s): %s  %s' % (k, case['build'], c['tag'], c['mode'], c['e'][:200], json.dumps(ri)[:200]), case, impl=ri)
+    done = 0
+    size = 600
+    for lo in range(0, len(cases), size):
+        batch = cases[lo:lo + size]
+        reqs = [{'e': c['e'], 'ctx': c['ctx'], 'mode': c['mode']} for c in batch]
+        for rel in (False, True):
+            impl = ctx.run_impl(GUARD % LIMIT_MS, reqs, release=rel, shards=8)
+            if len(impl) != len(batch):
+                ctx.broken.append('totality run: %d answers for %d requests' % (len(impl), len(batch)))
+            for c, rq, ri in zip(batch, reqs, impl):
+                ctx.evaluations += 1
+                ri = settle(ctx, rq, ri, rel)
+                k = klass(ri)
+                tag = c['tag'].split('-')[0]
+                hist[tag] = hist.get(tag, 0) + 1
+                if k == 'ok':
+                    ctx.corr_checked += 1
+                    kk = 'value' if ri.get('v', 0) is not None and 'v' in ri else ('null' if 'v' in ri else 'error:' + str(ri.get('err', 'name')))
+                    kinds[kk] = kinds.get(kk, 0) + 1
+                    if 'v' in ri and ri['v'] is not None:
+                        ctx.nontrivial.add((c['e'], c['mode']))
+                    continue
+                case = {'e': c['e'], 'ctx': c['ctx'], 'mode': c['mode'], 'build': 'release' if rel else 'debug', 'generator': c['tag']}
+                ctx.violation('%s in the %s build (%s, mode %s): %s  %s' % (k, case['build'], c['tag'], c['mode'], c['e'][:200], json.dumps(ri)[:200]), case, impl=ri)
+        done += len(batch)
+        if len(ctx.violations) >= 20:
+            ctx.notes.append('totality run stopped after %d of %d inputs: 20 failing inputs recorded' % (done, len(cases)))
+            break
     ctx.sample({'totality': cases[len(cases) // 3]})
     return len(cases), hist, kinds
 
@@ -509,7 +526,7 @@ def run(ctx):
              'the u32/i32/u64/i64/usize boundaries, 1e20, 1e40 and fractions; years-and-months literals over the i64/u64 boundaries of both digit groups and signs; iterations over 1-3 '
              'variables whose domains are ranges at the isize boundaries (both directions) and lists of 0-3 elements.  (2) totality, both builds, 7 parser entry points: every string '
              'literal of */src/tests/** (with the te_scope context of its test), token-level mutations of them, grammar-derived expressions, unary tests, arbitrary Unicode, escape '
-             'sequences, every built-in with 0-5 positional and named extreme arguments (10^4-element lists, maximal durations, far dates, DST gaps/folds, regex bombs), operators, '
+             'sequences, block / line comments with runs of * and / (0..6) at every place of the body, unterminated, around tokens, iteration variables starting with the keyword in, every built-in with 0-5 positional and named extreme arguments (10^4-element lists, maximal durations, far dates, DST gaps/folds, regex bombs), operators, '
              'properties, filters, nesting depth 200 per recursive construct.  non-trivial = the code returned a non-null value',
         extra_cov={'exhaustive': False, 'builds': ['debug (overflow-checks on)', 'release (overflow-checks off)'], 'per_request': '8 MiB stack thread, catch_unwind, %d ms wall-clock limit, process death observed' % LIMIT_MS,
                    'tie_cases': n_tie, 'lr_token_sequences': n_lr, 'lr_accepted': n_lr_acc, 'ym_cases': n_ym, 'odometer_cases': n_odo, 'totality_cases_per_build': n_tot, 'generator_histogram(both builds)': hist, 'outcome_kinds': kinds},
